@@ -47,7 +47,7 @@ ASSUMPTIONS = [
     "lxml, CPython io buffering are trusted; SimFS is the stub for the raw file layer",
 ]
 COMPONENTS = {"real": ["partitura.io.exportmusicxml", "partitura.io.importmusicxml", "partitura.io.load_score", "partitura.score", "partitura.directions", "lxml", "CPython io.Buffered*/TextIOWrapper, zipfile sniffing"], "stub": ["raw file layer (SimFS)", "HTTP client (fake urlopen peer)", "tempfile naming", "independent MusicXML interpreter (model/ref_musicxml.py) as peer reader"]}
-PROBES = ("load_returned_despite_read_fault", "fault_in_flight", "acknowledged_after_overwrite", "reader_on_torn_file", "torn_file_accepted", "short_reads", "url_route", "filelike_route", "mid_measure_divs_change", "tie_over_barline", "unequal_chord", "retry_after_failed_save", "zip_sniff")
+PROBES = ("divisions_declared_out_of_time_order", "load_returned_despite_read_fault", "fault_in_flight", "acknowledged_after_overwrite", "reader_on_torn_file", "torn_file_accepted", "short_reads", "url_route", "filelike_route", "mid_measure_divs_change", "tie_over_barline", "unequal_chord", "retry_after_failed_save", "zip_sniff")
 
 ROUTES_W = ("path", "path", "filelike", "return")
 ROUTES_R = ("path", "load_score", "filelike", "url", "path", "mxl")
@@ -215,7 +215,7 @@ def generate(seed, tier, cfg):
         "workload": asc,
         "ops": ops,
         "faults": faults,
-        "knobs": {"chunk": k.choice((1, 7, 16, 512, 8192, 0)), "short_reads": k.choice((None, None, [1], [3, 1, 7], [64])), "bufsize": k.choice((-1, -1, 16, 1024))},
+        "knobs": {"chunk": k.choice((1, 7, 16, 512, 8192, 0)), "short_reads": k.choice((None, None, [1], [3, 1, 7], [64])), "bufsize": k.choice((-1, -1, 16, 1024)), "late_divs": k.random() < 0.3},
     }
 
 
@@ -294,7 +294,9 @@ def execute(case, keep_log=False):
     for key, probe in (("mid", "mid_measure_divs_change"), ("tieb", "tie_over_barline"), ("uneq", "unequal_chord")):
         if shape[key]:
             res.probe(probe)
-    score = build.build_score(asc, with_pages=True, set_ends=True)
+    score = build.build_score(asc, with_pages=True, set_ends=True, late_divs=bool(kn.get("late_divs")))
+    if kn.get("late_divs") and any(len(p["qdivs"]) > 2 for p in asc["parts"]):
+        res.probe("divisions_declared_out_of_time_order")
     snapper = FP.Snapshotter()
     snap0 = snapper.snapshot(score)
     want_fp = fp_c03(score)
